@@ -705,6 +705,34 @@ def r12_chain_continues(run, F):
            "operators that start a bitwise chain but do not continue one: %s (a chain of three operands stops after the second and the rest is a syntax error)" % missing)
 
 
+def r13_older_node_is_current(run, F):
+    """Left-associative chains (`a + b + c`, `a | b | c`, `x as u8 as i32`) are built in a loop: each round pushes a reference to
+    the expression built *so far* (`push_older_node`) and then the new operator node, which becomes the expression.  The node
+    referred to is therefore the loop's accumulator -- a local that the same loop assigns -- never a snapshot taken before the
+    loop: with a snapshot every round after the first refers to the innermost operand again and the nodes built in between are
+    orphaned (the dump stays balanced; `x as u8 as i32` loses the `u8` cast)."""
+    n = 0
+    for p, b in sorted(F.lib.bodies.items()):
+        if "hir" not in b or not p.startswith("delta::parser::parse_") or "{closure" in p:
+            continue
+        for lp in [x for x in walk(b["hir"]) if x.get("k") == "Loop"]:
+            inner = [y for y in walk(lp) if y.get("k") == "Loop" and y is not lp]
+            assigned = set()
+            for x in walk(lp):
+                if x.get("k") == "Assign":
+                    l = hirq.unwrap_trivial(x["lhs"])
+                    if l.get("k") == "Path":
+                        assigned.add(l.get("lid"))
+            for c in hirq.calls(lp):
+                if not (hirq.callee(c) or "").endswith("ParseBuffer::push_older_node") or any(c is z for il in inner for z in walk(il)):
+                    continue
+                a = hirq.unwrap_trivial(c["a"][0]) if c.get("a") else {}
+                n += 1
+                run.ob("R13-OLDER-NODE-IS-CURRENT", "%s|site %d" % (p.split("::")[-1], n), a.get("k") == "Path" and a.get("lid") in assigned, F.where(b, c),
+                       "the node referred to in a chain-building loop is the local the loop itself reassigns (the expression so far), not `%s` captured outside" % a.get("res"))
+    run.floor("R13-OLDER-NODE-IS-CURRENT", 4, "chain-building loops of the second-generation parser (4 counted)")
+
+
 def check(run):
     F = run.facts("A")
     r9_flags_flow(run, F)
@@ -718,3 +746,4 @@ def check(run):
     r8_literal_delimiters(run, F)
     r11_reservations_do_not_nest(run, F)
     r12_chain_continues(run, F)
+    r13_older_node_is_current(run, F)
